@@ -471,6 +471,18 @@ def _objects():
   return [f() for f in _OBJECT_FACTORIES]
 
 
+_SHARED_OBJECTS = []
+
+
+def _shared_object(i):
+  """The i-th object of `_objects()`, built once per process: candidate values
+  are never handed to the library (`accepts` and the laws work on deep
+  copies), so they can be shared between calls."""
+  if not _SHARED_OBJECTS:
+    _SHARED_OBJECTS.extend(_objects())
+  return _SHARED_OBJECTS[i]
+
+
 class _Later:
   """Placeholder for an object of `_objects()` that is built only if used."""
 
@@ -603,7 +615,7 @@ def own_values(rng, spec, depth=0):
           out.append(extra)
       out.append({})
   elif isinstance(spec, T.Object):
-    out += [o for o in _objects()]
+    out += [_shared_object(i) for i in range(len(_OBJECT_FACTORIES))]
   elif isinstance(spec, T.Union):
     for c in spec.candidates:
       vs = own_values(rng, c, depth + 1)
@@ -625,10 +637,10 @@ def candidates(rng, specs, limit=40):
   seen, out = set(), []
   # Same values in the same order as `UNIVERSAL + _objects()` shuffled; the
   # (expensive) objects are built only when they make it into the selection.
-  uni = list(UNIVERSAL) + [_Later(f) for f in _OBJECT_FACTORIES]
+  uni = list(UNIVERSAL) + [_Later(i) for i in range(len(_OBJECT_FACTORIES))]
   rng.shuffle(uni)
   n_uni = max(6, limit // 4)
-  picked = [v.factory() if isinstance(v, _Later) else v for v in uni[:n_uni]]
+  picked = [_shared_object(v.factory) if isinstance(v, _Later) else v for v in uni[:n_uni]]
   for v in derived + picked:
     key = (type(v).__name__, repr(v))
     if key in seen:
